@@ -864,7 +864,9 @@ def random_histories_keep_scheduler_counters_consistent():
 
 @test
 def doubly_cancelled_ancestor_behaviour():
-    """informational: cancel a sub-group, then the batch -> is_job_cancelled() returns 2 rows -> error 1242 in schedule_job"""
+    """cancel a sub-group, then the batch: with migration 119 alone is_job_cancelled() is a scalar subquery over one row per cancelled
+    ancestor -> error 1242 in schedule_job; migration 121 (LIMIT 1 in the lateral subquery) answers.  minisql itself keeps raising 1242
+    for any multi-row scalar subquery (checked here on 119's verbatim text and on a plain statement)."""
     async def go():
         db = batchapp.seeded_db(random.Random(0), clock=lambda: 1700000000.0)
         app = await batchapp.make_driver_app(db)
@@ -879,11 +881,37 @@ def doubly_cancelled_ancestor_behaviour():
         await inst.activate('10.0.0.1', 1)
         await fe._cancel_job_group(app, bid, 1)
         await fe._cancel_job_group(app, bid, 0)
+        # (1) a multi-row scalar subquery is an error, in a plain statement ...
+        try:
+            await g.execute_and_fetchone('SELECT (SELECT job_group_id FROM job_groups_cancelled WHERE id = %s) AS x', (bid,))
+            plain = 'no error'
+        except pymysql.err.MySQLError as e:
+            plain = e.args[0]
+        assert plain == 1242, plain
+        # (2) ... and in the function as migration 119 defined it (its verbatim text, when that file is in the tree)
+        import re
+        from harness.minisql import extract
+        path119 = os.path.join(extract._repo_root(), 'batch', 'sql', '119-is-job-cancelled.sql')
+        old = [stmt for stmt, _ in extract.split_script(open(path119, encoding='utf-8').read())
+               if re.match(r'CREATE\s+FUNCTION\s+is_job_cancelled\b', stmt)] if os.path.exists(path119) else []
+        snap = db.snapshot()
         try:
             rv = await g.execute_and_fetchone('CALL schedule_job(%s, %s, %s, %s);', (bid, 1, 'a1', 'w1'))
             out = f'rc={rv["rc"]}'
         except pymysql.err.MySQLError as e:
             out = f'{type(e).__name__}{e.args}'
+        if db.routine_sources.get('is_job_cancelled', '').startswith('121-'):
+            assert out == 'rc=0', out
+            if old:
+                db.restore(snap)
+                db.add_routine(old[0], '119-is-job-cancelled.sql')
+                try:
+                    await g.execute_and_fetchone('CALL schedule_job(%s, %s, %s, %s);', (bid, 1, 'a2', 'w1'))
+                    out119 = 'no error'
+                except pymysql.err.MySQLError as e:
+                    out119 = e.args[0]
+                assert out119 == 1242, out119
+                out += '; with the definition of 119 alone: error 1242'
         app['task_manager'].shutdown()
         return out
     print('    schedule_job of an always_run job whose group and batch are both cancelled ->', asyncio.run(go()))
